@@ -147,6 +147,8 @@ class Setup:
                     for k in range(n):
                         items.append(y)
                         y += rng.choice([1, 2, 3, 7])
+                    if n >= 4 and not W.sizes.get("t") and rng.random() < 0.3:
+                        items = SL.span_trap_grid(rng, n, 2000)
                 W.inputs["time_items"] = items
             T = Dimension(name="Time", letter="t", items=items, dtype=int)
             ex = [W.dim(l) for l in EXTRA[:n_extra]]
